@@ -110,9 +110,9 @@ class RedisStorage(QueueStorage):
 
     def set_recipients_delivered(self, id, rcpt_indexes):
         current = self.redis.hget(self._get_key(id), 'delivered_indexes')
-        new_indexes = rcpt_indexes
+        new_indexes = list(rcpt_indexes)
         if current:
-            new_indexes = pickle.loads(current) + rcpt_indexes
+            new_indexes = list(pickle.loads(current)) + new_indexes
         self.redis.hset(self._get_key(id), 'delivered_indexes',
                         pickle.dumps(new_indexes, pickle.HIGHEST_PROTOCOL))
         log.update_meta(id, delivered_indexes=rcpt_indexes)
